@@ -171,6 +171,15 @@ impl ForwardedModule {
             map = Arc::new(PrefixedMapView(map, prefix.to_owned()));
         }
 
+        // `show` and `hide` name the members as they are seen through the prefix
+        if let Some(safelist) = safelist {
+            map = Arc::new(LimitedMapView::safelist(map, safelist));
+        } else if let Some(blocklist) = blocklist {
+            if !blocklist.is_empty() {
+                map = Arc::new(LimitedMapView::blocklist(map, blocklist));
+            }
+        }
+
         map
     }
 
